@@ -256,6 +256,39 @@ static void check_single(const TId& id) {
 		if (!product_is_identity<4>("Matrix4.inverse", a, b, why)) viol("Matrix4::Inverse:product-not-identity", "M = ToMatrix of " + tdesc(id) + ": M * M^-1: " + why);
 		else if (!product_is_identity<4>("Matrix4.inverse", b, a, why)) viol("Matrix4::Inverse:product-not-identity", "M = ToMatrix of " + tdesc(id) + ": M^-1 * M: " + why);
 	}
+	// (5) Matrix4 inverse of a general (non-affine) matrix: ToMatrix with another bottom row.  Small translations only, so
+	//     that the matrix stays well-conditioned (the inverse is compared through the product, in double, with a bound
+	//     relative to the magnitudes of the summed terms, as above).
+	if (tl <= 16.0) {
+		static const float ROWS[3][4] = {{0.25f, 0.0f, 0.0f, 1.0f}, {0.0f, -0.5f, 0.125f, 1.0f}, {0.5f, 0.25f, -0.25f, 2.0f}};
+		for (int r = 0; r < 3; r++) {
+			Matrix4 Mg = M;
+			for (int k = 0; k < 4; k++) Mg[12 + k] = ROWS[r][k];
+			double a[4][4];
+			to_d4(Mg, a);
+			// leave out the rare row that makes the matrix (nearly) singular: |det| computed in double
+			double det = 0;
+			{
+				auto m3 = [&](int r0, int r1, int r2, int c0, int c1, int c2) {
+					return a[r0][c0] * (a[r1][c1] * a[r2][c2] - a[r1][c2] * a[r2][c1]) - a[r0][c1] * (a[r1][c0] * a[r2][c2] - a[r1][c2] * a[r2][c0])
+						   + a[r0][c2] * (a[r1][c0] * a[r2][c1] - a[r1][c1] * a[r2][c0]);
+				};
+				det = a[0][0] * m3(1, 2, 3, 1, 2, 3) - a[0][1] * m3(1, 2, 3, 0, 2, 3) + a[0][2] * m3(1, 2, 3, 0, 1, 3) - a[0][3] * m3(1, 2, 3, 0, 1, 2);
+			}
+			double s3 = s * s * s;
+			if (std::fabs(det) < 0.05 * s3) { st.add("general_matrices_left_out_near_singular"); continue; }
+			Matrix4 Mi = Mg.Inverse();
+			double b[4][4];
+			to_d4(Mi, b);
+			std::string why;
+			st.add("identities_checked", 2);
+			st.add("general_matrix_inverses_checked");
+			if (!product_is_identity<4>("Matrix4.inverse.general", a, b, why))
+				viol("Matrix4::Inverse:general-matrix:product-not-identity", vf::strf("M = ToMatrix of %s with bottom row (%g,%g,%g,%g): M * M^-1: %s", tdesc(id).c_str(), ROWS[r][0], ROWS[r][1], ROWS[r][2], ROWS[r][3], why.c_str()));
+			else if (!product_is_identity<4>("Matrix4.inverse.general", b, a, why))
+				viol("Matrix4::Inverse:general-matrix:product-not-identity", vf::strf("M = ToMatrix of %s with bottom row (%g,%g,%g,%g): M^-1 * M: %s", tdesc(id).c_str(), ROWS[r][0], ROWS[r][1], ROWS[r][2], ROWS[r][3], why.c_str()));
+		}
+	}
 }
 
 // ---------------------------------------------------------------- checks on one rotation (and rotation x diagonal scale)
